@@ -24,7 +24,7 @@ var specC05 = report.Spec{Property: "C05", Check: "C05",
 		"Non-trivial: for some tile matrix the returned rings differ in number or vertex count from the routed rings of the reference model (split / de-duplicated / collapsed), or collapsed parts were returned with keep. Distinct by case content.",
 	Assumptions: []string{"pixel indices of returned coordinates are recovered with the harness' grid model (extent from tms20.MatrixBoundingBox)"}}
 
-func genC05(t *rapid.T) SnapCase { return drawArbCase(t, gen.AnyGridWide, 3, 60) }
+func genC05(t *rapid.T) SnapCase { return drawArbCase(t, gen.AnyGridWide, 3, report.Scale(60, 150)) }
 
 // wellFormed checks the per-polygon invariants of C05 for one tile matrix.
 func wellFormed(lev kernel.Leveled, polys []geom.Polygon, reverse, keep bool) string {
